@@ -560,6 +560,15 @@ func run(in Input) (res lib.Result) {
 		return t
 	}
 	bodies["trie"] = mkTrie().Bytes()
+	{ // another payload produced while the first one is still waiting to be sent (queued jobs of one session)
+		decoy := transporttrie.New()
+		for _, s := range in.MS {
+			decoy.Insert(append([]byte("decoy;"), s.Key...), s.V+1, true)
+		}
+		decoy.Insert([]byte("decoy;extra;stack"), 99, true)
+		_ = decoy.Bytes()
+		_ = transporttrie.New().Bytes()
+	}
 	{
 		t := tree.New()
 		for _, s := range in.MS {
